@@ -1,3 +1,4 @@
+import shutil
 """Shared machinery for the kismet-cache verification checks (stdlib only)."""
 import fcntl, hashlib, json, os, re, subprocess, sys, time
 
@@ -171,22 +172,34 @@ def audit(ctx, props_file):
     adir = os.path.join(BUILD, "audit")
     os.makedirs(adir, exist_ok=True)
     afile = os.path.join(adir, "Audit_%s.v" % ctx.prop)
+    # one output file per theorem (Redirect): the verdict does not depend on how coqc
+    # interleaves its output channels
+    odir = os.path.join(adir, "out_%s" % ctx.prop)
+    shutil.rmtree(odir, ignore_errors=True)
+    os.makedirs(odir, exist_ok=True)
     with open(afile, "w") as f:
         f.write("Require Import %s.\n" % mod)
         for t in thms + examples:
-            f.write('Goal True. idtac "@@ %s". Abort.\nPrint Assumptions %s.\n' % (t, t))
+            f.write('Redirect "%s" Print Assumptions %s.\n' % (os.path.join(odir, t), t))
     rc, out = sh(["coqc", "-Q", os.path.join(COQ, "theories"), "Kismet", afile], timeout=600, cwd=adir)
     if rc != 0:
         res["problems"].append("audit coqc failed: " + out[-1500:])
         return res
-    cur = None
-    for line in out.split("\n"):
-        if line.startswith("@@ "):
-            cur = line[3:].strip(); res["axioms"][cur] = []
-        elif cur and line.strip().startswith("Closed under the global context"):
-            res["closed"].append(cur)
-        elif cur and line.strip() and not line.startswith("Axioms:") and re.match(r"^[A-Za-z_]", line.strip()) and ":" in line:
-            res["axioms"][cur].append(line.strip().split(":")[0].strip())
+    for t in thms + examples:
+        fp = os.path.join(odir, t + ".out")
+        if not os.path.exists(fp):
+            res["problems"].append("no Print Assumptions output for " + t)
+            continue
+        txt = open(fp).read()
+        res["axioms"][t] = []
+        if "Closed under the global context" in txt:
+            res["closed"].append(t)
+        else:
+            for line in txt.split("\n"):
+                if line.strip() and not line.startswith("Axioms:") and re.match(r"^[A-Za-z_]", line):
+                    res["axioms"][t].append(re.split(r"\s|:", line.strip())[0])
+            if not res["axioms"][t]:
+                res["problems"].append("unreadable Print Assumptions output for %s: %s" % (t, txt[:200]))
     for t in thms + examples:
         ax = [a for a in res["axioms"].get(t, []) if a not in AXIOM_ALLOW]
         if t not in res["closed"] and (ax or t not in res["axioms"]):
@@ -241,6 +254,13 @@ def finish(ctx, props_file, aud, cov, violations, broken_ties, assumptions, extr
     implementation (concrete failing input/trace/history).
     broken_ties: list of dicts {what, detail} — a proof obligation or a
     correspondence that no longer checks but for which no failing input was found."""
+    # the level recorded in the evidence is the one claimed in MANIFEST.json (single source of truth)
+    try:
+        for c in json.load(open(os.path.join(ROOT, "MANIFEST.json")))["checks"]:
+            if c["property_id"] == ctx.prop:
+                level = c["level_claimed"]["category"]
+    except Exception:
+        pass
     lines, rc = [], 0
     reported = 0
     known_printed = set()
